@@ -214,3 +214,52 @@ theorem renormFunctional_sum (hr : IsRN q r) (l : List ℚ) (h : ∀ a ∈ l, Re
   | a :: b :: c :: rest, _, _, _, _, g => simpa [renormFunctional] using g
 
 end FAVerif.Renorm
+
+namespace FAVerif.Renorm
+open FAVerif.FPQ
+
+variable {q : QFmt} {r : ℚ → ℚ}
+
+/-- **Two-term renormalisation yields a normalised double word**: the result of
+`renormalize([a, b])` is `[]`, `[s]` or `[s, t]` with s + t = a + b, and in the last case
+s = RN(s + t) — the leading term is the rounding of the whole, i.e. the terms do not overlap. -/
+theorem renorm2_normal (hr : IsRN q r) {a b : ℚ} (ha : Rep q a) (hb : Rep q b) :
+    let l := renormEager (arithQ r) false [a, b]
+    l.sum = a + b ∧ l.length ≤ 2 ∧ (∀ s t, l = [s, t] → r (s + t) = s ∧ t ≠ 0) := by
+  intro l
+  have h1 := twoSum_spec hr ha hb
+  set s := (twoSum (arithQ r) a b).1 with hs
+  set e := (twoSum (arithQ r) a b).2 with he
+  have hsdef : s = r (a + b) := rfl
+  have hse : s + e = a + b := h1.1
+  have h2 := twoSum_spec hr h1.2.1 h1.2.2
+  -- second two_sum reproduces (s, e): s' = RN(s + e) = RN(a + b) = s
+  have hs' : (twoSum (arithQ r) s e).1 = s := by
+    show r (s + e) = s
+    rw [hse]; exact hsdef.symm
+  have he' : (twoSum (arithQ r) s e).2 = e := by
+    have := h2.1
+    rw [hs'] at this; linarith
+  have hl : l = if decide (e = 0) then (if decide (s = 0) then [] else [s]) else (s :: (if decide (e = 0) then [] else [e])) := by
+    show renormEager (arithQ r) false [a, b] = _
+    simp only [renormEager, vecsum, two, Bool.false_eq_true, if_false]
+    rw [errBranch_cons]
+    simp only [two, Bool.false_eq_true, if_false]
+    rw [← hs, ← he, hs', he']
+    simp only [errBranch, arithQ]
+    rfl
+  by_cases hez : e = 0
+  · by_cases hsz : s = 0
+    · simp only [hl, hez, hsz, decide_true, if_true]
+      refine ⟨by simp; linarith, by simp, fun s t h => by simp at h⟩
+    · simp only [hl, hez, hsz, decide_true, decide_false, if_true, Bool.false_eq_true, if_false]
+      refine ⟨by simp; linarith, by simp, fun s t h => by simp at h⟩
+  · simp only [hl, hez, decide_false, Bool.false_eq_true, if_false]
+    refine ⟨by simp; linarith, by simp, ?_⟩
+    intro s0 t0 h
+    simp only [List.cons.injEq, and_true] at h
+    obtain ⟨h1', h2'⟩ := h
+    subst h1'; subst h2'
+    exact ⟨by rw [hse]; exact hsdef.symm, hez⟩
+
+end FAVerif.Renorm
